@@ -14,7 +14,7 @@ from ..leanio.build import SDMODEL, LEAN
 from . import dbcommon as C, walindex as W
 
 ID = "C18"
-LEAN_MODULES = ["SqliteDissect.Properties.C18", "SqliteDissect.Properties.C06", "SqliteDissect.Properties.C16", "SqliteDissect.Properties.C18Scan"]
+LEAN_MODULES = ["SqliteDissect.Properties.C18", "SqliteDissect.Properties.C06", "SqliteDissect.Properties.C16", "SqliteDissect.Properties.C18Scan", "SqliteDissect.Properties.C18Cost"]
 RULE = ("well-formed factory databases (freelist, overflow chains, indexes, pointer maps, multi-level trees) whose every "
         "link / count / size field — located by parsing the clean file — is overwritten with adversarial values (self, "
         "parent, 0, 1, max, size+-1, random), plus pairs of such edits, truncations and random bit flips; each damaged "
@@ -128,6 +128,14 @@ def run_model(path, frames, limit, wal=None):
     return out
 
 
+def _guarded_iter(results, ex):
+    try:
+        for r in results:
+            yield r
+    finally:
+        ex.shutdown(wait=False, cancel_futures=True)
+
+
 def run(ctx, per_db_quick=130, per_db_thorough=600):
     sc = C.Scratch()
     try:
@@ -211,10 +219,12 @@ def run(ctx, per_db_quick=130, per_db_thorough=600):
                 model = run_model(p, impl["frames"], max(90.0, 6 * limit) * (10 if ctx.thorough() else 1), wal)
             return job, impl, model
 
-        with ThreadPoolExecutor(max_workers=14) as ex:
-            results = list(ex.map(one, enumerate(jobs)))
+        ex = ThreadPoolExecutor(max_workers=14)
         slowest = 0.0
-        for (p, desc, limit, clean_sha, cfg, wal), impl, model in results:
+        results = ex.map(one, enumerate(jobs))
+        # (results are judged as they arrive, so that an interrupted search keeps what it found; when the search
+        # budget's alarm interrupts the wait the jobs still queued are not started)
+        for (p, desc, limit, clean_sha, cfg, wal), impl, model in _guarded_iter(results, ex):
             case = {"corruption": desc, "cfg": {k: cfg[k] for k in ("page_size", "auto_vacuum", "rows", "churn")}, "seed": ctx.seed}
             ctx.evals += 1
             n0 = len(ctx.oracle_failures)
